@@ -27,7 +27,7 @@ import tempfile
 import numpy as np
 
 from ..core import Machinery, SPEC, VERIF, run_tlc, close
-from .. import fx_docs, fx_factory as FX, fx_mixins as MX
+from .. import fx_docs, fx_factory as FX, fx_mixins as MX, fx_parser as PZ
 
 PY = sys.executable
 
@@ -445,26 +445,36 @@ def asm_chem_file(tmp):
 
 def asm_par(a, xdir, files=None):
     form = a.get('chemform', 'plain')
-    L = ['[Global]', 'xsec_path = %s' % xdir, '[Chemistry]', 'chemistry_type = %s' % a['chem']]
-    if form == 'composite':         # mixins.rst: makefree+file, the gas sub-sections are injected into the file profile
-        L += ['filename = %s' % files['chemfile'], 'gases = H2, He']
-    elif form == 'custom':          # custom.rst: the class of python_file, its constructor keywords are keys
-        L += ['python_file = %s' % files['chemistry_duck'], 'base_gas = H2']
-    else:
-        L += ['fill_gases = H2,He', 'ratio = 0.2']
-    for mol, g in (('H2O', a['gas1']), ('CH4', a['gas2'])):
-        L += ['    [[%s]]' % mol, '    gas_type = %s' % g] + ['    %s = %s' % kv for kv in ASM_VALUES[g].items()]
-    L += ['[Temperature]', 'profile_type = %s' % a['temp']] + ['%s = %s' % kv for kv in ASM_VALUES[a['temp']].items()]
-    L += ['[Pressure]', 'profile_type = %s' % a['press'], 'nlayers = 30', 'atm_min_pressure = 1e-1', 'atm_max_pressure = 1e6']
-    L += ['[Planet]', 'planet_type = simple', 'planet_mass = 1.2', 'planet_radius = 0.9']
-    L += ['[Star]', 'star_type = blackbody', 'temperature = 5500', 'radius = 0.8']
+    absent = set(a.get('absent') or ())         # family C: sections that are not written (inputfile.rst: not all headers are required)
+    L = ['[Global]', 'xsec_path = %s' % xdir]
+    if 'Chemistry' not in absent:
+        L += ['[Chemistry]', 'chemistry_type = %s' % a['chem']]
+        if form == 'composite':         # mixins.rst: makefree+file, the gas sub-sections are injected into the file profile
+            L += ['filename = %s' % files['chemfile'], 'gases = H2, He']
+        elif form == 'custom':          # custom.rst: the class of python_file, its constructor keywords are keys
+            L += ['python_file = %s' % files['chemistry_duck'], 'base_gas = H2']
+        else:
+            L += ['fill_gases = H2,He', 'ratio = 0.2']
+        for mol, g in (('H2O', a['gas1']), ('CH4', a['gas2'])):
+            L += ['    [[%s]]' % mol, '    gas_type = %s' % g] + ['    %s = %s' % kv for kv in ASM_VALUES[g].items()]
+    if 'Temperature' not in absent:
+        L += ['[Temperature]', 'profile_type = %s' % a['temp']] + ['%s = %s' % kv for kv in ASM_VALUES[a['temp']].items()]
+    if 'Pressure' not in absent:
+        L += ['[Pressure]', 'profile_type = %s' % a['press'], 'nlayers = 30', 'atm_min_pressure = 1e-1', 'atm_max_pressure = 1e6']
+    if 'Planet' not in absent:
+        L += ['[Planet]', 'planet_type = simple', 'planet_mass = 1.2', 'planet_radius = 0.9']
+    if 'Star' not in absent:
+        L += ['[Star]', 'star_type = blackbody', 'temperature = 5500', 'radius = 0.8']
     L += ['[Model]', 'model_type = %s' % a['model']]
     if a['model'] != 'transmission':
         L += ['ngauss = 3']
+    L += ['%s = %s' % (k, e['raw']) for k, e in sorted(_jmap(a.get('mkeys')).items())]
     for c in a['contribs']:
         L += ['    [[%s]]' % c] + ['    %s = %s' % kv for kv in ASM_VALUES[c].items()]
     if a['binning'] != 'none':
         L += ['[Binning]', 'bin_type = manual', 'wavenumber_grid = 500, 1900, 8', 'accurate = %s' % ('True' if a['binning'] == 'flux' else 'False')]
+    if a.get('inst', 'none') != 'none':
+        L += ['[Instrument]', 'instrument = %s' % a['inst']] + ['%s = %s' % (k, e['raw']) for k, e in sorted(_jmap(a.get('instkeys')).items())]
     if a.get('fitting'):
         L += ['[Fitting]']
         for e in a['fitting']:
@@ -473,34 +483,45 @@ def asm_par(a, xdir, files=None):
     return '\n'.join(L) + '\n'
 
 
-def asm_library(a, classes, files=None):
-    """The same components through the library, from the specification's class names."""
+def asm_library(a, classes, files=None, build=True):
+    """The same components through the library, from the specification's class names.  A section that the file
+    leaves out (family C) is a keyword the model constructor is not given."""
     from taurex.cache import OpacityCache
     kw = lambda sel: {k: pyval(v) for k, v in ASM_VALUES[sel].items()}
     form = a.get('chemform', 'plain')
-    if form == 'composite':
-        from taurex.mixin import enhance_class
-        from taurex.parameter.classfactory import ClassFactory
-        mixins = {k.__name__: k for k in ClassFactory().chemistryMixinKlasses}
-        chem = enhance_class(classes[a['cls']['chembases'][-1]], [mixins[m] for m in a['cls']['chembases'][:-1]],
-                             gases=['H2', 'He'], filename=files['chemfile'])
-    elif form == 'custom':
-        chem = MX.load_custom_class('chemistry_duck', files)(base_gas='H2')
-    else:
-        chem = classes[a['cls']['chem']](fill_gases=['H2', 'He'], ratio=0.2)
-    chem.addGas(classes[a['cls']['gas1']](molecule_name='H2O', **kw(a['gas1'])))
-    chem.addGas(classes[a['cls']['gas2']](molecule_name='CH4', **kw(a['gas2'])))
-    temp = classes[a['cls']['temp']](**kw(a['temp']))
-    press = classes[a['cls']['press']](nlayers=30.0, atm_min_pressure=1e-1, atm_max_pressure=1e6)
-    planet = classes['Planet'](planet_mass=1.2, planet_radius=0.9)
-    star = classes['BlackbodyStar'](temperature=5500.0, radius=0.8)
-    mk = dict(planet=planet, star=star, chemistry=chem, temperature_profile=temp, pressure_profile=press)
+    absent = set(a.get('absent') or ())
+    mk = {}
+    if 'Chemistry' not in absent:
+        if form == 'composite':
+            from taurex.mixin import enhance_class
+            from taurex.parameter.classfactory import ClassFactory
+            mixins = {k.__name__: k for k in ClassFactory().chemistryMixinKlasses}
+            chem = enhance_class(classes[a['cls']['chembases'][-1]], [mixins[m] for m in a['cls']['chembases'][:-1]],
+                                 gases=['H2', 'He'], filename=files['chemfile'])
+        elif form == 'custom':
+            chem = MX.load_custom_class('chemistry_duck', files)(base_gas='H2')
+        else:
+            chem = classes[a['cls']['chem']](fill_gases=['H2', 'He'], ratio=0.2)
+        chem.addGas(classes[a['cls']['gas1']](molecule_name='H2O', **kw(a['gas1'])))
+        chem.addGas(classes[a['cls']['gas2']](molecule_name='CH4', **kw(a['gas2'])))
+        mk['chemistry'] = chem
+    if 'Temperature' not in absent:
+        mk['temperature_profile'] = classes[a['cls']['temp']](**kw(a['temp']))
+    if 'Pressure' not in absent:
+        mk['pressure_profile'] = classes[a['cls']['press']](nlayers=30.0, atm_min_pressure=1e-1, atm_max_pressure=1e6)
+    if 'Planet' not in absent:
+        mk['planet'] = classes['Planet'](planet_mass=1.2, planet_radius=0.9)
+    if 'Star' not in absent:
+        mk['star'] = classes['BlackbodyStar'](temperature=5500.0, radius=0.8)
     if a['model'] != 'transmission':
         mk['ngauss'] = 3.0
+    for k, e in _jmap(a.get('mkeys')).items():
+        mk[k] = e['typed']['v'][0] / e['typed']['v'][1]
     model = classes[a['cls']['model']](**mk)
     for c, cn in zip(a['contribs'], a['cls']['contribs']):
         model.add_contribution(classes[cn](**kw(c)))
-    model.build()
+    if build:
+        model.build()
     return model
 
 
@@ -560,6 +581,10 @@ def run_assemblies(ctx, asms, tmp, classes):
         cls = 'asm:%s:%s:%s' % (a['model'], a['temp'], '+'.join(a['contribs']))
         if a.get('chemform', 'plain') != 'plain' or a.get('fitting'):
             cls += ':chem=%s:fit=%s' % (a.get('chemform', 'plain'), a.get('fit', 'none'))
+        absent = sorted(a.get('absent') or ())
+        inst = a.get('inst', 'none')
+        if absent or _jmap(a.get('mkeys')) or inst != 'none':       # family C: presence of sections
+            cls = 'asm:%s:no[%s]:mk[%s]:inst=%s' % (a['model'], ','.join(absent), ','.join(sorted(_jmap(a.get('mkeys')))), inst)
         par = os.path.join(tmp, 'asm%d.par' % n)
         h5 = os.path.join(tmp, 'asm%d.h5' % n)
         txt = os.path.join(tmp, 'asm%d.txt' % n)
@@ -592,6 +617,7 @@ def run_assemblies(ctx, asms, tmp, classes):
             h_native = st['native_spectrum'][...]
             h_wn = st['native_wngrid'][...]
             h_binned = st['binned_spectrum'][...] if 'binned_spectrum' in st else None
+            h_noise = st['instrument_noise'][...] if 'instrument_noise' in st else None
             rd = lambda k: f[k][()].decode() if k in f else None
             types = dict(model=rd('ModelParameters/model_type'), temp=rd('ModelParameters/Temperature/temperature_type'),
                          chem=rd('ModelParameters/Chemistry/chemistry_type'),
@@ -605,21 +631,37 @@ def run_assemblies(ctx, asms, tmp, classes):
             for k in ('gas1', 'gas2') + (('chem',) if form == 'composite' else ()):
                 types.pop(k), want.pop(k)
             types['active'], want['active'] = stored_active, sorted(model.chemistry.activeGases)
+        for sec, ks in (('Temperature', ('temp',)), ('Pressure', ('press',)), ('Chemistry', ('chem', 'gas1', 'gas2'))):
+            if sec in absent:       # the model's own default component: compared through the spectrum
+                for k in ks:
+                    types.pop(k, None), want.pop(k, None)
         ctx.verdict('ObjectGraph', types == want, cls=cls, detail='file built %s, specification %s' % (types, want), vector=vec)
         ok = h_native.shape == spec.shape and np.array_equal(h_wn, wn) and np.allclose(h_native, spec, rtol=1e-12, atol=0)
         ctx.verdict('CLIEqualsLibrary', ok, cls=cls, detail='stored native spectrum differs from the library-built model: max rel %s' % (
             np.max(np.abs(h_native / spec - 1)) if h_native.shape == spec.shape else 'shape'), vector=vec)
         col = np.loadtxt(txt)
-        if a['binning'] == 'none':
+        if inst != 'none':          # [Instrument]: -S holds the instrument's spectrum and its noise (SNR, num_observations)
+            ik = {k: e['typed']['v'][0] / e['typed']['v'][1] for k, e in _jmap(a.get('instkeys')).items()}
+            nobs = ik.pop('num_observations', 1)
+            inso = classes[a["cls"]["inst"]](binner=model.defaultBinner(), **ik)
+            e_sp, e_noise = inso.model_noise(model, model_res=model.model(), num_observations=nobs)[1:3]
+            ok = col.shape[0] == len(e_sp) and np.allclose(col[:, 1], e_sp, rtol=1e-12, atol=0) and np.allclose(col[:, 2], e_noise, rtol=1e-12, atol=0) \
+                and h_noise is not None and np.allclose(h_noise, e_noise, rtol=1e-12, atol=0)
+            ctx.verdict('CLIEqualsLibrary', ok, cls=cls + ':instrument', detail='-S spectrum / noise columns (noise %s, stored %s) differ from %s(%s).model_noise(model, num_observations=%s) '
+                        'built through the library (noise %s)' % (col[:2, 2] if col.ndim == 2 and col.shape[1] > 2 else None, None if h_noise is None else h_noise[:2],
+                                                                  a['cls']['inst'], ik, nobs, e_noise[:2]), vector=vec)
+            exp = None
+        elif a['binning'] == 'none':
             exp = spec
         else:
             grid = np.linspace(500.0, 1900.0, 8)
             b = (FluxBinner if a['binning'] == 'flux' else SimpleBinner)(grid)
             exp = b.bindown(wn, spec)[1]
-        ok = col.shape[0] == len(exp) and np.allclose(col[:, 1], exp, rtol=1e-12, atol=0)
-        if h_binned is not None:
-            ok = ok and np.allclose(h_binned, exp, rtol=1e-12, atol=0)
-        ctx.verdict('CLIEqualsLibrary', ok, cls=cls + ':binned', detail='-S / binned spectrum differs from the library binner on the library model', vector=vec)
+        if exp is not None:
+            ok = col.shape[0] == len(exp) and np.allclose(col[:, 1], exp, rtol=1e-12, atol=0)
+            if h_binned is not None:
+                ok = ok and np.allclose(h_binned, exp, rtol=1e-12, atol=0)
+            ctx.verdict('CLIEqualsLibrary', ok, cls=cls + ':binned', detail='-S / binned spectrum differs from the library binner on the library model', vector=vec)
         if a.get('fitting'):
             check_fitting(ctx, a, par, model, cls, vec)
         for p in (par, h5, txt):
@@ -648,7 +690,9 @@ def run(ctx):
                                'with base-first / two-bases / unknown-mixin / unknown-key variants; '
                                'value grammar: every value keyword of every selectable class x list lengths 0..3 x numbers/strings/mixed '
                                '(scalar spellings on %s); 1..2 sub-sections under plain / composite (<= %d mixins) / custom selectors of '
-                               '[Chemistry] and [Model]' % ('one class per kind' if q else 'every class', 1 if q else 2),
+                               '[Chemistry] and [Model]; presence of sections: every subset of [Temperature] [Pressure] [Chemistry] [Planet] [Star] left out x every '
+                               'subset of the [Model] layer keys (%s); parser history: walks of %d calls over 15 generate_* methods + read() on %d files'
+                               % ('one class per kind' if q else 'every class', 1 if q else 2, 'one model type' if q else 'every model type', 2 if q else 3, 3 if q else 4),
                       hash_seeds=[1, 2] if q else [1, 2, 3, 4])
     ctx.assumptions = ['the committed table harness/data/documented_keywords.json is the documentation (extractor: harness/fx_docs.py)',
                        'constructor arguments are observed by signature-preserving wrappers installed from outside the repository',
@@ -796,6 +840,16 @@ def run(ctx):
         ctx.add_sample(dict(configuration=vecs[len(vecs) // 2]))
         # 5. hard-wired sections
         side_checks(ctx, doc, tmp)
+        # 5b. the parser as a long-lived object: generate_* calls in any order, repeated, after read() of another file (FactoryParser)
+        hr = ctx.check_spec('parser-history', 'FactoryParser', 'MC_FactoryParser_%s.cfg' % ctx.tier, workers=4, need_actions=('Gen', 'Read'))
+        ctx.expect_refuted('parser-consumes-live-config', 'FactoryParser', 'MC_FactoryParser_consuming_refuted.cfg', 'GenerateEqualsFresh', workers=2)
+        ctx.expect_refuted('parser-prebuilds-absent-section', 'FactoryParser', 'MC_FactoryParser_prebuild_refuted.cfg', 'AbsentSectionIsDefaultArgument', workers=2)
+        walks, hfiles = hr.tagged('WALK'), hr.tagged('FILES')
+        if not walks or not hfiles:
+            raise Machinery('parser history: no walks / files exported')
+        nw, nc = PZ.run_history(ctx, walks, hfiles[0], tmp, xsec_dir(tmp), 140 if q else 1500, random.Random(ctx.seed * 1009 + 151))
+        ctx.note('%d of %d TLC-generated walks on one long-lived ParameterParser (%d generate_* calls, each compared with a fresh parser of the same file; '
+                 'the parser configuration compared with the file as read after every step)' % (nw, len(walks), nc))
         # 6. assembled models through the CLI
         ar = tlc(ctx, 'assemblies', 'FactoryAsm', 'FactoryAsm.cfg', sd, workers=1)
         asms = ar.tagged('ASM')
@@ -805,8 +859,12 @@ def run(ctx):
         asms = sorted({json.dumps(a, sort_keys=True): a for a in asms}.items())
         asms = [a for _, a in asms]
         rng.shuffle(asms)
-        famB = [a for a in asms if a['fit'] != 'none']
-        asms = [a for a in asms if a['fit'] == 'none']
+        for a in asms:
+            a['mkeys'], a['instkeys'] = _jmap(a['mkeys']), _jmap(a['instkeys'])
+        isC = lambda a: bool(a['absent'] or a['mkeys'] or a['inst'] != 'none')
+        famC = [a for a in asms if isC(a)]
+        famB = [a for a in asms if a['fit'] != 'none' and not isC(a)]
+        asms = [a for a in asms if a['fit'] == 'none' and not isC(a)]
         pickn = 6 if q else 40
         # make sure every model type and every temperature / gas selector appears
         chosen, seen = [], set()
@@ -831,9 +889,27 @@ def run(ctx):
                 formsB.append(a)
         if {a['chemform'] for a in formsB} != {'plain', 'composite', 'custom'}:
             raise Machinery('assemblies: not every form of the [Chemistry] selector was exported: %s' % sorted({a['chemform'] for a in formsB}))
-        run_assemblies(ctx, chosen + formsB, tmp, classes)
-        ctx.note('%d assembled models (+ %d over the forms of the [Chemistry] selector x [Fitting] sections) run through taurex.taurex.main() and compared '
-                 'with the library-built model (1e-12)' % (len(chosen), len(formsB)))
+        # family C: the presence of sections.  Every file in-process (recorded model constructor call, pressure grid, model = library),
+        # a few through the command-line program
+        cmodels = sorted({a['model'] for a in famC})
+        sect = [a for a in famC if a['inst'] == 'none' and (not q or a['model'] == cmodels[ctx.seed % len(cmodels)])]
+        if not [a for a in sect if 'Pressure' in a['absent'] and 'nlayers' in a['mkeys']] or not [a for a in sect if len(a['absent']) == 5]:
+            raise Machinery('assemblies: family C (presence of sections) was not exported in full')
+        files = dict(MX.write_custom_files(tmp), chemfile=asm_chem_file(tmp))
+        from taurex.cache import GlobalCache
+        GlobalCache()['xsec_path'] = xsec_dir(tmp)
+        nsect = PZ.run_sections(ctx, sect, tmp, xsec_dir(tmp), classes, files, asm_par, asm_library, typed_matches)
+        picksC = []
+        for pred in (lambda a: 'Pressure' in a['absent'] and 'nlayers' in a['mkeys'] and a['inst'] == 'none',
+                     lambda a: 'Chemistry' in a['absent'] and a['inst'] == 'none',
+                     lambda a: a['inst'] != 'none' and a['absent']):
+            picksC += [a for a in famC if pred(a) and a not in picksC][:1 if q else 4]
+        if len(picksC) < 3:
+            raise Machinery('assemblies: family C offers no file for the command-line program')
+        run_assemblies(ctx, chosen + formsB + picksC, tmp, classes)
+        ctx.note('%d assembled models (+ %d over the forms of the [Chemistry] selector x [Fitting] sections, + %d with sections left out / an [Instrument] section) '
+                 'run through taurex.taurex.main() and compared with the library-built model (1e-12); %d files over the presence of sections x [Model] layer keys '
+                 'compared in-process (model constructor call, pressure grid, model = library)' % (len(chosen), len(formsB), len(picksC), nsect))
     finally:
         shutil.rmtree(sd, ignore_errors=True)
         shutil.rmtree(tmp, ignore_errors=True)
@@ -869,7 +945,19 @@ def replay(ctx, violations):
                 cands.setdefault((c['kind'], k), []).append(c['name'])
         for viol in violations:
             v = viol['vector'] or {}
-            if 'par' in v and 'model' in v and 'contribs' in v:      # an assembly (value-grammar vectors name their key `par` too)
+            if v.get('sections') or 'history' in v:       # presence of sections in-process / a walk on one long-lived parser
+                cf = ClassFactory()
+                classes = {k.__name__: k for attr in FX.KIND_ATTR.values() for k in getattr(cf, attr)}
+                if v.get('sections'):
+                    from taurex.cache import GlobalCache
+                    GlobalCache()['xsec_path'] = xsec_dir(tmp)
+                    PZ.run_sections(ctx, [v], tmp, xsec_dir(tmp), classes, dict(MX.write_custom_files(tmp), chemfile=asm_chem_file(tmp)),
+                                    asm_par, asm_library, typed_matches)
+                else:
+                    hr = run_tlc('FactoryParser', 'MC_FactoryParser_quick.cfg', workers=4)
+                    PZ.run_history(ctx, hr.tagged('WALK'), hr.tagged('FILES')[0], tmp, xsec_dir(tmp), 140, random.Random(ctx.seed * 1009 + 151))
+                    break
+            elif 'par' in v and 'model' in v and 'contribs' in v:      # an assembly (value-grammar vectors name their key `par` too)
                 cf = ClassFactory()
                 classes = {k.__name__: k for attr in FX.KIND_ATTR.values() for k in getattr(cf, attr)}
                 run_assemblies(ctx, [v], tmp, classes)
